@@ -38,6 +38,11 @@ class Ctx:
             d = extract.ensure_mir(config)
             p = mir.Program(d)
             self._programs[config] = p
+            self.analysed["functions_not_in_known_fns_" + config] = len(getattr(p, "new_functions", []))
+            if p.inlined:
+                self.analysed["expanded_helpers_" + config] = sorted({"%s into %s" % (h.split("::", 1)[1], c.split("::", 1)[1]) for h, c, _ in p.inlined})[:40]
+            if self._src is not None:
+                self._src.attach(p)
             self.analysed.setdefault("configs", []).append(config)
             self.analysed["bodies_" + config] = len(p.bodies)
         return self._programs[config]
@@ -46,6 +51,8 @@ class Ctx:
         if self._src is None:
             from . import srcfacts
             self._src = srcfacts.Source(extract.ensure_src())
+            for p in self._programs.values():
+                self._src.attach(p)
             self.analysed["source_files"] = len(self._src.files)
         return self._src
 
